@@ -90,6 +90,14 @@ C = [
   [("pkg/network/payload/merkleblock.go", "\tcount := br.ReadVarUint()\n\tif count > block.MaxTransactionsPerBlock {", "\ttxCount := int(br.ReadVarUint())\n\tif txCount > block.MaxTransactionsPerBlock {"), ("pkg/network/payload/merkleblock.go", "\ttxCount := int(count)\n", "")]),
  ("C20-restart-panics-on-equal-siblings", "C20", "traverse-callback", "the pool-rebuilding Traverse callback panics on the second occurrence of a hash (the repaired defect)",
   [("pkg/core/statesync/module.go", "\t\t\t\t\tif _, ok = seen[n.Hash()]; ok {\n\t\t\t\t\t\t// Equal subtrees have equal hashes: the node was already\n\t\t\t\t\t\t// processed with all of its paths when it was met first.\n\t\t\t\t\t\treturn false\n\t\t\t\t\t}\n", "")]),
+ ("C17-map-key-unvalidated", "C17", "decoder-panics", "binary stack item decoder adds a map key without validating it (the repaired defect)",
+  [("pkg/vm/stackitem/serialization.go", "\t\t\tif err := IsValidMapKey(key); err != nil {\n\t\t\t\tr.Err = err\n\t\t\t\treturn nil\n\t\t\t}\n", "")]),
+ ("C17-json-map-key-unvalidated", "C17", "decoder-panics", "FromJSON adds a property name as map key without validating it (the repaired defect)",
+  [("pkg/vm/stackitem/json.go", "\t\tif err = IsValidMapKey(keyItem); err != nil {\n\t\t\treturn nil, err\n\t\t}\n", "")]),
+ ("C17-typed-json-integer-unchecked", "C17", "decoder-panics", "FromJSONWithTypes builds an Integer without the size check (the repaired defect)",
+  [("pkg/vm/stackitem/json.go", "\t\tif err := CheckIntegerSize(val); err != nil {\n\t\t\treturn nil, mkErrValue(err)\n\t\t}\n", "")]),
+ ("C17-json-number-unchecked", "C17", "decoder-panics", "FromJSON builds an Integer from a JSON number without the size check (the repaired defect)",
+  [("pkg/vm/stackitem/json.go", "\t\tif err = CheckIntegerSize(num); err != nil {\n\t\t\treturn nil, fmt.Errorf(\"%w (%w)\", ErrInvalidValue, err)\n\t\t}\n", "")]),
 ]
 
 root = "/verif/controls"
